@@ -41,7 +41,11 @@ fn make_value(wid: u64, shape: Shape) -> TensorData {
     d.set("a", TensorValue::Scalar(ScalarValue::Int(wid as i64)));
     d.set("b", TensorValue::Scalar(ScalarValue::String(format!("w{}", wid))));
     match shape {
-        Shape::EmbSlab => d.set("_embedding", TensorValue::Vector(vec![wid as f32; DIM_SLAB])),
+        // every other element carries the write id, the rest is exactly zero: >= 50 % zeros makes the
+        // slab snapshot keep the vector bit-exactly (its sparse path), so that durable rounds with a
+        // concurrent checkpoint can compare vectors exactly (the lossy tensor-train path of dense
+        // >= 256-dim vectors is C07's subject, not a linearizability matter)
+        Shape::EmbSlab => d.set("_embedding", TensorValue::Vector((0..DIM_SLAB).map(|i| if i % 2 == 0 { wid as f32 } else { 0.0 }).collect())),
         Shape::EmbOther => d.set("_embedding", TensorValue::Vector(vec![wid as f32; 16])),
         _ => {}
     }
@@ -71,7 +75,8 @@ fn decode_value(d: &TensorData) -> Result<u64, String> {
                 return Err(format!("_embedding has {} elements, write {} stored {}", v.len(), wid, want_len));
             }
             let w = wid as f32;
-            if let Some((i, x)) = v.iter().enumerate().find(|(_, x)| **x != w) {
+            let slab = shape == Shape::EmbSlab;
+            if let Some((i, x)) = v.iter().enumerate().find(|(i, x)| **x != if slab && i % 2 == 1 { 0.0 } else { w }) {
                 let first = v[0];
                 return Err(format!("_embedding is not the vector of write {}: element {} = {} (element 0 = {})", wid, i, x, first));
             }
@@ -150,7 +155,7 @@ struct RoundOut {
     ops: BTreeMap<&'static str, u64>,
 }
 
-fn run_threads(store: &Arc<TensorStore>, cfg: &RoundCfg, seed: u64) -> RoundOut {
+fn run_threads(store: &Arc<TensorStore>, cfg: &RoundCfg, seed: u64, snap: Option<std::path::PathBuf>) -> RoundOut {
     let clock = Arc::new(AtomicU64::new(1));
     let barrier = Arc::new(Barrier::new(cfg.threads));
     let keys = Arc::new(cfg.keys.clone());
@@ -163,6 +168,7 @@ fn run_threads(store: &Arc<TensorStore>, cfg: &RoundCfg, seed: u64) -> RoundOut 
             let clock = clock.clone();
             let barrier = barrier.clone();
             let keys = keys.clone();
+            let snap = snap.clone();
             std::thread::spawn(move || {
                 let mut rng = Rng::new(seed ^ (t as u64 + 1).wrapping_mul(0x9E37_79B9));
                 if jitter {
@@ -176,6 +182,14 @@ fn run_threads(store: &Arc<TensorStore>, cfg: &RoundCfg, seed: u64) -> RoundOut 
                 for _ in 0..n_ops {
                     let ki = rng.below(keys.len());
                     let key = &keys[ki];
+                    // durable rounds: now and then a thread takes a checkpoint while the others write
+                    if let Some(sp) = snap.as_ref() {
+                        if rng.chance(1, 14) {
+                            let _ = store.checkpoint(sp);
+                            *ops.entry("checkpoint").or_insert(0) += 1;
+                            continue;
+                        }
+                    }
                     let which = rng.weighted(&[34, 34, 10, 10, 12]);
                     match which {
                         0 => {
@@ -331,7 +345,8 @@ fn stress_round(case_seed: u64, r: &mut Report, args: &Args) {
         None => TensorStore::new(),
     };
     let store = Arc::new(store);
-    let out = run_threads(&store, &cfg, rng.next_u64());
+    let snap_path = scratch.join("c11.snap");
+    let out = run_threads(&store, &cfg, rng.next_u64(), cfg.durable.map(|_| snap_path.clone()));
     for (k, v) in &out.ops {
         r.count(&format!("ops_{}", k), *v);
     }
@@ -370,10 +385,13 @@ fn stress_round(case_seed: u64, r: &mut Report, args: &Args) {
         let _ = store.sync();
         let live = view(&store);
         drop(store);
-        match TensorStore::recover(&wal_path, &wal_cfg(mode), None) {
+        match TensorStore::recover(&wal_path, &wal_cfg(mode), Some(&snap_path)) {
             Ok(rec) => {
                 let v = view(&rec);
                 r.count("durable_rounds_recovered", 1);
+                if snap_path.exists() {
+                    r.count("durable_rounds_with_concurrent_checkpoint", 1);
+                }
                 if v != live {
                     r.violation(
                         "durable-order:recovered-state-differs-from-last-seen",
@@ -741,7 +759,7 @@ fn main() {
     }
     let meta = Meta {
         property: "C11",
-        rule: "stress round = one real TensorStore, 2-8 OS threads x 6-19 operations on 1-4 contended keys of classes plain/emb(384-dim slab vector, other dim, none)/node/table/edge/_cache, non-durable or durable (manual / immediate sync), half of the rounds with seeded jitter at the put_durable/delete_durable hook points; every call recorded at the client boundary (atomic tick before and after); values self-describing (write id in every field and vector element). Oracles: value integrity per read, Wing-Gong linearizability per key (scan decomposed per key), recovered-state == live state after quiescence. Distinct = hash of the observed call order (thread, op, key by call tick); non-trivial = at least two operations of different threads on one key overlapped in time. parked rounds = the deterministic two-writer schedule at put_durable:after_log; sequential rounds = single-thread register semantics; fresh rounds = 3-8 threads creating 4-15 distinct new keys each at the same instant, every key read back at quiescence; engine rounds = the same history check on VectorEngine::{store_embedding,get_embedding,delete_embedding,exists} over one shared store.",
+        rule: "stress round = one real TensorStore, 2-8 OS threads x 6-19 operations on 1-4 contended keys of classes plain/emb(384-dim slab vector, other dim, none)/node/table/edge/_cache, non-durable or durable (manual / immediate sync), half of the rounds with seeded jitter at the put_durable/delete_durable hook points; every call recorded at the client boundary (atomic tick before and after); values self-describing (write id in every field and vector element). Oracles: value integrity per read, Wing-Gong linearizability per key (scan decomposed per key), recovered-state (latest checkpoint + log; durable rounds take checkpoints concurrently with the writers) == live state after quiescence. Distinct = hash of the observed call order (thread, op, key by call tick); non-trivial = at least two operations of different threads on one key overlapped in time. parked rounds = the deterministic two-writer schedule at put_durable:after_log; sequential rounds = single-thread register semantics; fresh rounds = 3-8 threads creating 4-15 distinct new keys each at the same instant, every key read back at quiescence; engine rounds = the same history check on VectorEngine::{store_embedding,get_embedding,delete_embedding,exists} over one shared store.",
         assumptions: vec![
             "the Ok/NotFound result of delete is not judged (Delete is modelled as a blind write); a failed delete records no event".into(),
             "a prefix scan is judged per key (each listed/absent contended key is a read inside the scan's interval), not as an atomic snapshot".into(),
@@ -750,7 +768,7 @@ fn main() {
         floors: if args.replay.is_some() || part != "all" {
             vec![("evaluations", 5)]
         } else {
-            vec![("events_recorded", 5_000), ("rounds_with_overlapping_ops", 100), ("key_histories_linearizable", 200), ("parked_at_after_log", 5), ("durable_rounds_recovered", 20), ("sequential_reads_checked", 500), ("engine_key_histories_linearizable", 100), ("fresh_keys_read_back", 2_000)]
+            vec![("events_recorded", 5_000), ("rounds_with_overlapping_ops", 100), ("key_histories_linearizable", 200), ("parked_at_after_log", 5), ("durable_rounds_recovered", 20), ("durable_rounds_with_concurrent_checkpoint", 10), ("sequential_reads_checked", 500), ("engine_key_histories_linearizable", 100), ("fresh_keys_read_back", 2_000)]
         },
         exhaustive: false,
     };
